@@ -326,6 +326,19 @@ impl<'tcx> Runner<'tcx> {
                     me.ip.atom_names.insert(a, format!("{}[{}]", key, counter));
                     n.lin = Some(Rc::new(Lin::atom(a)));
                 }
+                Some(mode_s) if mode_s.starts_with("bits") && mode_s.len() > 4 && i.ty.bits > 8 => {
+                    // `bitsN`: an integer leaf is the sum of N boolean atoms (layout analyses of encoders)
+                    let nb: u32 = mode_s[4..].parse().unwrap_or(0);
+                    let mut terms = Vec::new();
+                    for k in 0..nb {
+                        let a = me.ip.fresh_atom(st, 0, 1, None);
+                        me.ip.atom_names.insert(a, format!("{}[{}].{}", key, counter, k));
+                        terms.push((a, 1i128 << k));
+                    }
+                    n = IntV::new(0, (1i128 << nb) - 1, i.ty);
+                    n.taint = i.taint;
+                    n.lin = Some(Rc::new(Lin { m: 0, d: 0, terms }));
+                }
                 Some("bits") if i.ty.bits == 8 && !i.ty.signed => {
                     // every bit of the byte is a boolean atom: byte = sum 2^k * bit_k
                     let mut terms = Vec::new();
@@ -469,7 +482,33 @@ impl<'tcx> Runner<'tcx> {
             let v = self.input_for(&mut st, job, i, &pname, t, &module);
             args.push(v);
         }
+        let args_copy: Vec<Val> = args.clone();
         let mut parts = self.ip.call_instance(st, inst, args);
+        // `result_from_arg=N`: the analysed function writes its result through the &mut argument N: report the
+        // pointee of that argument after the call as the job's result
+        if let Some(n) = job.opts.get("result_from_arg").and_then(|s| s.parse::<usize>().ok()) {
+            if let Ok(ps) = &parts {
+                let mut out2: Vec<(State, Val)> = Vec::new();
+                for (s, _) in ps.iter() {
+                    let v = match args_copy.get(n) {
+                        Some(Val::Ref(p)) => s.read(p),
+                        Some(Val::Slice { base, start, len }) => match (s.read(base), start.is_const(), len.is_const()) {
+                            (Val::Arr(a), Some(s0), Some(nn)) if nn <= 16384 => {
+                                let mut r = ArrV::uniform(Val::Bot, nn as u64);
+                                for i in 0..(nn as u64) {
+                                    r.over.insert(i, a.get(s0 as u64 + i).clone());
+                                }
+                                Val::Arr(Rc::new(r))
+                            }
+                            _ => Val::Top,
+                        },
+                        _ => Val::Top,
+                    };
+                    out2.push((s.clone(), v));
+                }
+                parts = Ok(out2);
+            }
+        }
         // `then=<root>`: feed the Ok payload (or the plain result) of this root to a second root in the
         // same state, so that named atoms flow through both (round-trip analyses)
         if let Some(next) = job.opts.get("then") {
@@ -830,6 +869,19 @@ pub fn run<'tcx>(tcx: TyCtxt<'tcx>) -> String {
                         Some(l) => J::Arr(vec![J::Int(l.m), J::Int(l.d), J::Arr(l.terms.iter().map(|t| J::Arr(vec![J::s(rn.ip.last_atom_names.get(&t.0).cloned().unwrap_or_else(|| format!("a{}", t.0))), J::Int(t.1)])).collect()),
                                                 J::Int(i.lo), J::Int(i.hi)]),
                         None => J::Null,
+                    }).collect())
+                }
+                _ => J::Null,
+            },
+            "bytes_forms" => match (&v, job.opts.get("dump_bytes")) {
+                (Some(Val::Arr(a)), Some(_)) if a.len <= 8192 => {
+                    let names = &rn.ip.last_atom_names;
+                    J::Arr((0..a.len).map(|i| match a.get(i) {
+                        Val::Int(x) => match &x.lin {
+                            Some(l) => J::Arr(vec![J::Int(l.m), J::Int(l.d), J::Arr(l.terms.iter().map(|t| J::Arr(vec![J::s(names.get(&t.0).cloned().unwrap_or_default()), J::Int(t.1)])).collect())]),
+                            None => J::Null,
+                        },
+                        _ => J::Null,
                     }).collect())
                 }
                 _ => J::Null,
